@@ -415,6 +415,37 @@ func runC11(c *an.Ctx) {
 			}
 		})
 	}
+	// the matcher is case-insensitive as a whole (one flag per pattern), and every case-insensitive matcher expects
+	// lower-case needles: when ci is set, every extracted literal is lower-cased, whatever the flags of its own node
+	for _, n := range []string{"internal/operators.extractLiterals", "internal/operators.rawLiteral"} {
+		f := c.Fn("R3", n)
+		if f == nil || len(f.Params) < 2 {
+			continue
+		}
+		ciE := an.Expr(f.Params[len(f.Params)-1])
+		nLow := 0
+		an.Instrs(f, func(in ssa.Instruction) {
+			if !an.IsCallToFunc(in, "strings", "ToLower") {
+				return
+			}
+			nLow++
+			fct := an.FactsAt(in)
+			var foreign []string
+			for _, a := range fct {
+				if strings.Contains(a.L, ".Flags") || strings.Contains(a.R, ".Flags") {
+					foreign = append(foreign, tempName.ReplaceAllString(a.String(), ""))
+				}
+			}
+			okCI := fct.Has(ciE, "==", "true") || fct.Has(ciE, "!=", "false")
+			c.Check(okCI && len(foreign) == 0, "R3", fmt.Sprintf("%s: literal #%d lower-cased whenever the matcher is case-insensitive", shortFn(n), nLow), in.Pos(), "guarded by ci only",
+				"the literal is lower-cased only when additionally "+strings.Join(foreign, ", ")+" (ci guard present: "+fmt.Sprint(okCI)+"): with scoped flags such as (?i:x)Lit the matcher still runs case-insensitively and looks for lower-case needles, so a needle that keeps an upper-case letter can never be found and matching inputs are rejected")
+		})
+		c.MinCount("R3", "lower-casing sites in "+shortFn(n), nLow, 1)
+	}
+	// ASCII case folding by arithmetic (c + 32, c - 32, c | 0x20 ...) is only correct for letters: every such
+	// operation on a byte is dominated by a range test that confines the byte to A-Z or a-z.  Unguarded, it also
+	// rewrites @ [ \\ ] ^ _ and control bytes, and a folded bucket index no longer finds needles containing them.
+	c11FoldArithmetic(c, "R3", "internal/operators")
 	// trie words are never dropped: trieReconstruct filters the glued words by length, which is harmless only as
 	// long as every suffix is a non-empty string (prefix >= 1 byte + suffix >= 1 byte).  Invariant, by induction
 	// over the two mutually recursive extractors: every string they return is non-empty.
@@ -746,4 +777,55 @@ func nonEmptyString(v ssa.Value, at ssa.Instruction) bool {
 		return nonEmptyString(b.X, at) || nonEmptyString(b.Y, at)
 	}
 	return false
+}
+
+// c11FoldArithmetic checks the guard of every case-fold arithmetic operation on a byte/rune in the package.
+func c11FoldArithmetic(c *an.Ctx, rule, pkg string) {
+	n := 0
+	seen := map[string]int{}
+	for _, fn := range c.P.ModFuncs {
+		if relPkg(fn) != pkg {
+			continue
+		}
+		an.Instrs(fn, func(in ssa.Instruction) {
+			b, ok := in.(*ssa.BinOp)
+			if !ok {
+				return
+			}
+			switch b.Op.String() {
+			case "+", "-", "|", "^", "&^":
+			default:
+				return
+			}
+			bt, ok := b.Type().Underlying().(*types.Basic)
+			if !ok || (bt.Kind() != types.Uint8 && bt.Kind() != types.Int32) {
+				return
+			}
+			k, isC := an.ConstInt(b.Y)
+			x := b.X
+			if !isC {
+				if k, isC = an.ConstInt(b.X); isC {
+					x = b.Y
+				}
+			}
+			if !isC || k != 32 {
+				return
+			}
+			n++
+			c.FuncsAnalysed[fn] = true
+			e := an.Expr(x)
+			f := an.FactsAt(in)
+			lo, hi, _ := f.Range(e)
+			okU := lo >= 65 && hi <= 90
+			okL := lo >= 97 && hi <= 122
+			key := fmt.Sprintf("case-fold arithmetic %s in %s", tempName.ReplaceAllString(an.Expr(b), ""), an.RelName(fn))
+			seen[key]++
+			if seen[key] > 1 {
+				key += fmt.Sprintf("#%d", seen[key])
+			}
+			c.Check(okU || okL, rule, key, in.Pos(), fmt.Sprintf("operand confined to [%d,%d]", lo, hi),
+				"a byte is case-folded arithmetically ("+tempName.ReplaceAllString(an.Expr(b), "")+") without a dominating range test confining it to A-Z / a-z: punctuation and control bytes (@ [ \\ ] ^ _ ...) are rewritten too, so the folded byte no longer selects the needles that contain them and matching inputs are rejected", f.Strings()...)
+		})
+	}
+	c.MinCount(rule, "case-fold arithmetic sites in "+pkg, n, 3)
 }
